@@ -205,16 +205,21 @@ def run(ctx):
             try:
                 zs = tz.tzstr(s)
             except Exception as e:
-                ctx.violation('tzstr-rejected', {'zone': s}, '%s: %s' % (type(e).__name__, e))
-                continue
-            check_zone(ctx, tz, 'tzstr(%s)' % s, 'tzstr', zs, pz, classify_k3=True)
+                if tzzoo.subminute(pz) and isinstance(e, ValueError):
+                    ctx.count('tzstr_subminute_rejected')
+                    zs = None
+                else:
+                    ctx.violation('tzstr-rejected', {'zone': s}, '%s: %s' % (type(e).__name__, e))
+                    continue
+            if zs is not None:
+                check_zone(ctx, tz, 'tzstr(%s)' % s, 'tzstr', zs, pz, classify_k3=True)
             if tzzoo.k3_applies(pz):
                 ctx.count('k3_domain_triples')
             else:
                 check_zone(ctx, tz, 'tzrange(%s)' % s, 'tzrange', tzzoo.tzrange_equivalent(tz, relativedelta, pz), pz, classify_k3=False)
-                g = tz.gettz(s)
+                g = tz.gettz(s) if zs is not None else None
                 ctx.ev()
-                if not (isinstance(g, tz.tzstr) and g == zs):
+                if zs is not None and not (isinstance(g, tz.tzstr) and g == zs):
                     ctx.violation('gettz-tzstr', {'zone': s}, 'gettz(%r) gave %r' % (s, g))
             if i % 10 == 0:
                 ctx.sample({'tz_string': s, 'transitions_2020_utc': [t.isoformat() for t in pz.transitions(2020)]})
